@@ -432,7 +432,7 @@ class Function:
                     n["src0"] = src
                     n["src"] = q
 
-    def __init__(self, tu, j):
+    def __init__(self, tu, j, normalise=True):
         self.tu = tu
         self.j = j
         self.name = j["name"]
@@ -470,14 +470,23 @@ class Function:
                 b.succs.append(self.blocks[t] if t is not None else None)
                 if t is not None:
                     self.blocks[t].preds.append(b)
-        self._resolve_aliases()
-        self._propagate_block_copies()
-        self._canonical_compound()
+        if normalise:
+            self._resolve_aliases()
+            self._propagate_block_copies()
+            self._canonical_compound()
         # element -> (block, index)
         self.where = {}
         for b in self.blocks.values():
             for i, e in enumerate(b.elems):
                 self.where.setdefault(e.id, (b, i))
+
+    def pristine(self):
+        """the same function without the fact-level normalisations (aliases, copy propagation, canonical compound
+        assignments): the tree exactly as clang built it, which is what the concrete interpreter executes"""
+        p = getattr(self, "_pristine", None)
+        if p is None:
+            p = self._pristine = Function(self.tu, self.j, normalise=False)
+        return p
 
     def parent_of(self, n):
         return self.parent.get(n.id)
@@ -697,6 +706,183 @@ def content_fingerprint(fj):
     return sorted(out)
 
 
+def var_fingerprints(fj):
+    """How each parameter and local of a function is used, independent of its name: a set of tokens per variable built
+    from the nearest meaningful parent of every use (operator and side, subscript base/index, member accessed through it,
+    callee and argument position, ...) and a description of the sibling operand.  Used to recognise renamed variables."""
+    nodes = fj["nodes"]
+    parent = {}
+    for k, n in nodes.items():
+        for c in n.get("ch", []):
+            parent[str(c)] = k
+        if n.get("k") == "DeclStmt":
+            for d in n.get("decls", []):
+                if "init" in d:
+                    parent[str(d["init"])] = k
+    params = [p_["name"] for p_ in fj["params"]]
+    out = {}
+    for i, p_ in enumerate(fj["params"]):
+        out[p_["name"]] = {"kind": "param", "index": i, "ct": p_["type"].get("ct"), "tokens": set()}
+    order = 0
+    for k in sorted(nodes, key=lambda x: int(x)):
+        n = nodes[k]
+        if n.get("k") == "DeclStmt":
+            for d in n.get("decls", []):
+                if d["name"] not in out:
+                    out[d["name"]] = {"kind": "local", "index": order, "ct": d.get("type", {}).get("ct"), "tokens": set()}
+                    order += 1
+
+    def strip(k):
+        n = nodes[str(k)]
+        while n.get("k") in ("ImplicitCastExpr", "ParenExpr", "CStyleCastExpr") and n.get("ch"):
+            n = nodes[str(n["ch"][0])]
+        return n
+
+    def describe(k):
+        n = strip(k)
+        kk = n.get("k")
+        if kk in ("IntegerLiteral", "CharacterLiteral"):
+            return "#%s" % n.get("val")
+        if kk == "DeclRefExpr":
+            d = n.get("decl", {})
+            if d.get("kind") == "param" and d.get("name") in params:
+                return "p%d" % params.index(d["name"])
+            if d.get("kind") == "enumconst":
+                return "e:" + d.get("name", "")
+            return "v" if d.get("kind") in ("local", "param") else "g:" + str(d.get("name"))
+        if kk == "MemberExpr":
+            return "m:" + str(n.get("member"))
+        if kk == "CallExpr":
+            return "c:" + str(n.get("callee"))
+        if kk == "StringLiteral":
+            return "s:" + str(n.get("str"))
+        return str(kk)
+    for k, n in nodes.items():
+        if n.get("k") == "DeclStmt":
+            for d in n.get("decls", []):
+                if "init" in d and d["name"] in out:
+                    out[d["name"]]["tokens"].add("D:" + describe(d["init"]))
+        if n.get("k") != "DeclRefExpr":
+            continue
+        d = n.get("decl", {})
+        if d.get("kind") not in ("param", "local") or d.get("name") not in out:
+            continue
+        # climb through casts / parentheses
+        cur = k
+        while str(cur) in parent and nodes[parent[str(cur)]].get("k") in ("ImplicitCastExpr", "ParenExpr", "CStyleCastExpr"):
+            cur = parent[str(cur)]
+        pk = parent.get(str(cur))
+        if pk is None:
+            continue
+        P_ = nodes[pk]
+        ch = [str(c) for c in P_.get("ch", [])]
+        pos = ch.index(str(cur)) if str(cur) in ch else -1
+        kk = P_.get("k")
+        if kk in ("BinaryOperator", "CompoundAssignOperator"):
+            sib = ch[1 - pos] if pos in (0, 1) and len(ch) == 2 else None
+            tok = "B%s%s:%s" % (P_.get("op"), "LR"[pos] if pos in (0, 1) else "?", describe(sib) if sib else "")
+        elif kk == "ArraySubscriptExpr":
+            sib = ch[1 - pos] if pos in (0, 1) and len(ch) == 2 else None
+            tok = "S%s:%s" % ("bi"[pos] if pos in (0, 1) else "?", describe(sib) if sib else "")
+        elif kk == "MemberExpr":
+            tok = "M:%s" % P_.get("member")
+        elif kk == "CallExpr":
+            tok = "C:%s:%d" % (P_.get("callee"), pos)
+        elif kk == "UnaryOperator":
+            tok = "U%s" % P_.get("op")
+        elif kk == "DeclStmt":
+            tok = "I"
+        else:
+            tok = str(kk)
+        out[d["name"]]["tokens"].add(tok)
+    for v in out.values():
+        v["tokens"] = sorted(v["tokens"])
+    return out
+
+
+def rename_in_function(fj, ren):
+    """rename parameters / locals of one function's facts: {name in the tree: name to use}"""
+    if not ren:
+        return
+    rx = re.compile(r"(?<![\w.>])(%s)(?![\w])" % "|".join(re.escape(u) for u in sorted(ren, key=len, reverse=True)))
+
+    def sub(txt):
+        return rx.sub(lambda m_: ren[m_.group(1)], txt)
+    for p_ in fj["params"]:
+        if p_["name"] in ren:
+            p_["name"] = ren[p_["name"]]
+    for n in fj["nodes"].values():
+        d = n.get("decl")
+        if isinstance(d, dict) and d.get("kind") in ("param", "local") and d.get("name") in ren:
+            d["name"] = ren[d["name"]]
+        if n.get("k") == "DeclStmt":
+            for dd in n.get("decls", []):
+                if dd["name"] in ren:
+                    dd["name"] = ren[dd["name"]]
+        for key in ("path", "src"):
+            if isinstance(n.get(key), str) and rx.search(n[key]):
+                n[key] = sub(n[key])
+
+
+def canonical_variables(cfg, jsons, roles):
+    """Recognise renamed parameters and locals.  Parameters are matched by position (same types); locals by type and by
+    the way they are used (var_fingerprints).  A variable recognised under another name is renamed back to its reference
+    name in the facts of its function, so rules, site identities, known findings and the undecided-site list keep
+    addressing it.  New variables and unmatched ones keep their names (a clash with a reference name gets a `$` suffix).
+    Returns {function: {reference name: name in the tree}}."""
+    done = {}
+    for j in jsons:
+        for fj in j["functions"]:
+            r = roles.get(fj["name"])
+            ref = (r or {}).get("vars", {}).get(cfg)
+            if not ref:
+                continue
+            cur = var_fingerprints(fj)
+            ren = {}
+            # parameters by position
+            rp = [x for x in sorted((v for v in ref.items() if v[1]["kind"] == "param"), key=lambda v: v[1]["index"])]
+            cp = [x for x in sorted((v for v in cur.items() if v[1]["kind"] == "param"), key=lambda v: v[1]["index"])]
+            if len(rp) == len(cp) and all(a[1]["ct"] == b[1]["ct"] for a, b in zip(rp, cp)):
+                for (rn, _), (cn, _) in zip(rp, cp):
+                    if rn != cn:
+                        ren[cn] = rn
+            # locals by type and use
+            rl = {k: v for k, v in ref.items() if v["kind"] == "local"}
+            cl = {k: v for k, v in cur.items() if v["kind"] == "local"}
+            same = set(rl) & set(cl)
+            same = {k for k in same if rl[k]["ct"] == cl[k]["ct"]}
+            missing = [k for k in rl if k not in same]
+            unknown = [k for k in cl if k not in same]
+            if missing and unknown:
+                pairs = []
+                for e in missing:
+                    for u in unknown:
+                        if rl[e]["ct"] != cl[u]["ct"]:
+                            continue
+                        a, b = set(rl[e]["tokens"]), set(cl[u]["tokens"])
+                        sc = len(a & b) / float(len(a | b)) if (a or b) else 0.5
+                        pairs.append((sc, e, u))
+                pairs.sort(reverse=True)
+                used_e, used_u = set(), set()
+                for sc, e, u in pairs:
+                    if e in used_e or u in used_u:
+                        continue
+                    rivals = [s2 for s2, e2, u2 in pairs if (e2 == e) != (u2 == u) and e2 not in used_e and u2 not in used_u]
+                    if sc >= 0.34 and (not rivals or sc > max(rivals) + 0.1):
+                        ren[u] = e
+                        used_e.add(e)
+                        used_u.add(u)
+            # clashes: a kept/new variable that already carries a reference name another one is renamed to
+            targets = set(ren.values())
+            for k in list(cur):
+                if k in targets and k not in ren:
+                    ren[k] = k + "$"
+            if ren:
+                rename_in_function(fj, ren)
+                done[fj["name"]] = {v: k for k, v in ren.items()}
+    return done
+
+
 def canonical_names(cfg, jsons):
     """Recognise renamed internal functions.  `jsons` are the raw per-unit extractor outputs of one configuration.  A
     function the reference table (spec/function_roles.json) expects in this configuration and that is missing is matched
@@ -795,6 +981,7 @@ class FactBase:
     def __init__(self, configs=None, keep=False, canonical=True):
         self.canonical = canonical
         self.renamed = {}
+        self.renamed_vars = {}
         if not os.path.exists(EXTRACTOR):
             raise AnalysisBroken("extractor not built: run ./tool/build.sh (MANIFEST setup_cmd)")
         self.configs = list(configs or CONFIGS)
@@ -834,9 +1021,18 @@ class FactBase:
         flags_of = {}
         if self.canonical:
             for cfg in self.configs:
-                m = canonical_names(cfg, [j for c, _s, j, _f in results if c == cfg])
+                js = [j for c, _s, j, _f in results if c == cfg]
+                m = canonical_names(cfg, js)
                 if m:
                     self.renamed[cfg] = m
+                try:
+                    with open(ROLES) as fh:
+                        roles_ = json.load(fh)["roles"]
+                except (OSError, ValueError, KeyError):
+                    roles_ = {}
+                mv = canonical_variables(cfg, js, roles_)
+                if mv:
+                    self.renamed_vars[cfg] = mv
         for cfg, src, j, fl in results:
             per.setdefault(cfg, []).append(TU(src, j, cfg))
             flags_of[cfg] = fl
